@@ -1,4 +1,5 @@
 import TsVerif.C01.Judge
+import TsVerif.C01.Stream
 import TsVerif.C10.Model
 /-!
 # C01 — Incremental re-parse equals parsing the new text from scratch
@@ -23,8 +24,17 @@ Clause map
 * "a reused token is what the lexer would produce again" — `relex_before`, `relex_after`
   (text level, any `LexLocal` lexer), `relex_same_unmarked_leaf` (tie to C10's `editTree`: a leaf
   that `ts_subtree_edit` leaves unmarked re-lexes to itself), byte dimension.
-* whole-tree equality `incr_eq_scratch` — OPEN (needs the LR driver model, DESIGN.md §7 C01 stage
-  1/2); on the implementation it is DECIDED per case by `judge` (Judge.lean) on the two real trees.
+* stage 1 — `reuseOracle_sound`, `lexReuse_eq_lexAll`, `incr_eq_scratch_tokens`: with reuse
+  restricted to unreached leaves lexed in the same mode, every deterministic driver (any function
+  of the token stream, in particular any LR driver) ends in the same state incrementally and from
+  scratch, for every `LexLocal` lexer.
+* whole-tree equality with subtree-level reuse `incr_eq_scratch`, `incr_error_iff` — OPEN (needs
+  the LR driver model over the dumped table and `ReduceStable`, DESIGN.md §7 C01 stage 2); on the
+  implementation it is DECIDED per case by `judge` (Judge.lean) on the two real trees.
+* Genuine defect found by the judge (see the last section): a column-dependent token is reused
+  although an included-range difference lies earlier on its line.  `reuseGate` therefore carries
+  the input `lineDiff` = outcome of the extra test of the proposed repair (`lineDiffOf`), `false`
+  for the pinned tree; the theorems hold for both variants.
 
 The theorems are about `reuseGate` etc. (Model.lean), hand ports tied to parser.c by replaying
 the real parser's log against them on every run (Judge.lean `RS.gateEvent`).
@@ -35,11 +45,11 @@ open TsGen TsVerif
 /-! ## The gate -/
 
 /-- `gate_refuses`: whatever the gate accepts satisfies every test of `ts_parser__reuse_node`. -/
-theorem gate_refuses (L : Lang) (diffs : List (Nat × Nat)) (t : Tree) (off pos state : Nat) (extEq : Bool)
-    (h : reuseGate L diffs t off pos state extEq = .reuse) :
+theorem gate_refuses (L : Lang) (diffs : List (Nat × Nat)) (t : Tree) (off pos state : Nat) (extEq lineDiff : Bool)
+    (h : reuseGate L diffs t off pos state extEq lineDiff = .reuse) :
     off = pos ∧ extEq = true ∧ t.data.hasChanges = false ∧ t.data.symbol ≠ symError ∧
     t.data.isMissing = false ∧ t.data.fragileLeft = false ∧ t.data.fragileRight = false ∧
-    rangeIntersects diffs off (diffSpanEnd t off) = false ∧
+    rangeIntersects diffs off (diffSpanEnd t off) = false ∧ lineDiff = false ∧
     canReuseFirstLeaf L state t (L.tableEntry state (leafSymbol t)) = true := by
   unfold reuseGate at h
   repeat' split at h
@@ -48,25 +58,25 @@ theorem gate_refuses (L : Lang) (diffs : List (Nat × Nat)) (t : Tree) (off pos 
     | (simp_all; omega)
 
 /-- `gate_accepts`: conversely, a candidate passing every test is reused. -/
-theorem gate_accepts (L : Lang) (diffs : List (Nat × Nat)) (t : Tree) (off pos state : Nat) (extEq : Bool)
+theorem gate_accepts (L : Lang) (diffs : List (Nat × Nat)) (t : Tree) (off pos state : Nat) (extEq lineDiff : Bool)
     (h1 : off = pos) (h2 : extEq = true) (h3 : t.data.hasChanges = false) (h4 : t.data.symbol ≠ symError)
     (h5 : t.data.isMissing = false) (h6 : t.data.fragileLeft = false) (h7 : t.data.fragileRight = false)
-    (h8 : rangeIntersects diffs off (diffSpanEnd t off) = false)
+    (h8 : rangeIntersects diffs off (diffSpanEnd t off) = false) (h8' : lineDiff = false)
     (h9 : canReuseFirstLeaf L state t (L.tableEntry state (leafSymbol t)) = true) :
-    reuseGate L diffs t off pos state extEq = .reuse := by
+    reuseGate L diffs t off pos state extEq lineDiff = .reuse := by
   subst h1
   unfold reuseGate
-  simp [h2, h3, h4, h5, h6, h7, h8, h9]
+  simp [h2, h3, h4, h5, h6, h7, h8, h8', h9]
 
 /-- `gate_verdict_complete`: each refusal reason is the first failing test, in the order of the C code. -/
-theorem gate_verdict_complete (L : Lang) (diffs : List (Nat × Nat)) (t : Tree) (off pos state : Nat) (extEq : Bool) :
-    (reuseGate L diffs t off pos state extEq = .before ↔ off > pos) ∧
-    (reuseGate L diffs t off pos state extEq = .past ↔ off < pos) ∧
-    (reuseGate L diffs t off pos state extEq = .extState ↔ off = pos ∧ extEq = false) ∧
-    (reuseGate L diffs t off pos state extEq = .hasChanges ↔ off = pos ∧ extEq = true ∧ t.data.hasChanges = true) ∧
-    (reuseGate L diffs t off pos state extEq = .isError ↔
+theorem gate_verdict_complete (L : Lang) (diffs : List (Nat × Nat)) (t : Tree) (off pos state : Nat) (extEq lineDiff : Bool) :
+    (reuseGate L diffs t off pos state extEq lineDiff = .before ↔ off > pos) ∧
+    (reuseGate L diffs t off pos state extEq lineDiff = .past ↔ off < pos) ∧
+    (reuseGate L diffs t off pos state extEq lineDiff = .extState ↔ off = pos ∧ extEq = false) ∧
+    (reuseGate L diffs t off pos state extEq lineDiff = .hasChanges ↔ off = pos ∧ extEq = true ∧ t.data.hasChanges = true) ∧
+    (reuseGate L diffs t off pos state extEq lineDiff = .isError ↔
       off = pos ∧ extEq = true ∧ t.data.hasChanges = false ∧ t.data.symbol = symError) ∧
-    (reuseGate L diffs t off pos state extEq = .isMissing ↔
+    (reuseGate L diffs t off pos state extEq lineDiff = .isMissing ↔
       off = pos ∧ extEq = true ∧ t.data.hasChanges = false ∧ t.data.symbol ≠ symError ∧ t.data.isMissing = true) := by
   unfold reuseGate
   by_cases a : off > pos
@@ -201,16 +211,6 @@ theorem rangeIntersects_skip (pre rs : List (Nat × Nat)) (s e : Nat) (h : ∀ r
 
 /-! ## Re-lexing an unmarked token -/
 
-/-- What the lexer returns for a token: padding, size and how far beyond the end it looked. -/
-structure Tok where
-  sym : Nat
-  pad : Nat
-  size : Nat
-  la : Nat
-  deriving DecidableEq, Repr
-
-def Tok.window (k : Tok) : Nat := k.pad + k.size + k.la
-
 /-- `LexLocal lex`: in every lex mode `m`, the token lexed at `p` depends only on the bytes in
 `[p, p + pad + size + lookahead)` (the end of input being visible as "no byte").  This is the
 contract that `lookahead_bytes` is meant to record (`ts_lexer_finish`: `lookahead_end_byte`). -/
@@ -309,6 +309,69 @@ theorem relex_same_unmarked_leaf {μ : Type} (lex : μ → List Nat → Nat → 
   rw [htok]
   omega
 
+/-! ## Stage 1: leaf-level reuse gives the from-scratch token stream -/
+
+/-- `reuseOracle_sound`: every leaf the oracle offers is what the lexer returns on the NEW text at
+the requested position, provided the old leaves are what the lexer returned on the OLD text. -/
+theorem reuseOracle_sound {μ : Type} [DecidableEq μ] (lex : μ → List Nat → Nat → Tok) (hl : LexLocal lex)
+    (text ins : List Nat) (start oldEnd : Nat) (h1 : start ≤ oldEnd) (h2 : oldEnd ≤ text.length)
+    (old : List (Nat × μ × Tok)) (hold : ∀ x ∈ old, x.2.2 = lex x.2.1 text x.1)
+    (m : μ) (p' : Nat) (k : Tok)
+    (h : reuseOracle old start oldEnd (start + ins.length) m p' = some k) :
+    k = lex m (applyEdit text start oldEnd ins) p' := by
+  unfold reuseOracle at h
+  simp only [Option.map_eq_some_iff] at h
+  obtain ⟨x, hx, hk⟩ := h
+  have hmem := List.mem_of_find?_eq_some hx
+  have hp := List.find?_some hx
+  simp only [Bool.and_eq_true, decide_eq_true_eq] at hp
+  obtain ⟨hm, hs⟩ := hp
+  have hxo := hold x hmem
+  subst hk
+  rw [hm] at hxo
+  unfold shiftPos at hs
+  split at hs
+  · rename_i hb
+    simp only [Option.some.injEq] at hs
+    subst hs
+    rw [hxo] at hb ⊢
+    exact (relex_before lex hl m text ins start oldEnd x.1 h1 h2 hb).symm
+  · split at hs
+    · rename_i ha
+      simp only [Option.some.injEq] at hs
+      subst hs
+      rw [hxo]
+      exact (relex_after lex hl m text ins start oldEnd x.1 h1 h2 ha).symm
+    · contradiction
+
+/-- `lexReuse_eq_lexAll`: a source that prefers sound oracle answers IS the lexer on the new text. -/
+theorem lexReuse_eq_lexAll {μ : Type} (oracle : μ → Nat → Option Tok) (lexNew : μ → Nat → Tok)
+    (hs : ∀ m p k, oracle m p = some k → k = lexNew m p) :
+    incrSource oracle lexNew = lexNew := by
+  funext m p
+  unfold incrSource
+  split
+  · rename_i k hk
+    exact hs m p k hk
+  · rfl
+
+/-- `incr_eq_scratch_tokens` (stage 1 of the design): with reuse restricted to leaves that the
+edit did not reach and that were lexed in the same lex mode, EVERY deterministic driver — in
+particular every LR driver over a parse table — ends in the same state (builds the same tree)
+incrementally and from scratch, for every `LexLocal` lexer, every text and every well-formed edit. -/
+theorem incr_eq_scratch_tokens {σ μ : Type} [DecidableEq μ]
+    (step : σ → Tok → σ) (mode : σ → μ) (lex : μ → List Nat → Nat → Tok) (hl : LexLocal lex)
+    (text ins : List Nat) (start oldEnd : Nat) (h1 : start ≤ oldEnd) (h2 : oldEnd ≤ text.length)
+    (old : List (Nat × μ × Tok)) (hold : ∀ x ∈ old, x.2.2 = lex x.2.1 text x.1)
+    (fuel : Nat) (s0 : σ) (p0 : Nat) :
+    runDriver step mode
+      (incrSource (reuseOracle old start oldEnd (start + ins.length)) (fun m p => lex m (applyEdit text start oldEnd ins) p))
+      fuel s0 p0 =
+    runDriver step mode (fun m p => lex m (applyEdit text start oldEnd ins) p) fuel s0 p0 := by
+  rw [lexReuse_eq_lexAll]
+  intro m p k hk
+  exact reuseOracle_sound lex hl text ins start oldEnd h1 h2 old hold m p k hk
+
 /-! ## Non-vacuity -/
 
 /-- A lexer that is `LexLocal`: one-byte tokens whose symbol depends on the next byte as well
@@ -341,9 +404,33 @@ def toyLang : Lang :=
 def toyLeaf : Tree :=
   .mk { (default : NodeData) with symbol := 3, size := { bytes := 2, extent := { row := 0, column := 2 } } } []
 
+/-- The oracle does offer old leaves (so `incr_eq_scratch_tokens` is about real reuse): the old
+leaf at 4 is offered at its shifted position 5, the leaf at 2 (window reaches the edit) is not. -/
+example :
+    let old := [(0, (), toyLex () [1, 2, 3, 4, 5, 6] 0), (2, (), toyLex () [1, 2, 3, 4, 5, 6] 2), (4, (), toyLex () [1, 2, 3, 4, 5, 6] 4)]
+    reuseOracle old 3 4 5 () 5 = some (toyLex () [1, 2, 3, 4, 5, 6] 4) ∧ reuseOracle old 3 4 5 () 0 = some (toyLex () [1, 2, 3, 4, 5, 6] 0) ∧
+    reuseOracle old 3 4 5 () 2 = none ∧ (∀ x ∈ old, x.2.2 = toyLex x.2.1 [1, 2, 3, 4, 5, 6] x.1) := by
+  decide
+
 example : reuseGate toyLang [] toyLeaf 5 5 1 true = .reuse := by decide
 example : reuseGate toyLang [(6, 7)] toyLeaf 5 5 1 true = .rangeDiff := by decide
 example : reuseGate toyLang [] (.mk { toyLeaf.data with hasChanges := true } []) 5 5 1 true = .hasChanges := by decide
 example : RangesSorted [(1, 2), (2, 5), (9, 9)] := by simp [RangesSorted]
+
+/-! ## Finding `column-token-range-change`, at the level of the gate
+
+Document `" x"` of `fx_depends_on_column`; the old tree was parsed with the whole document
+included, the new parse includes only `[1,2)`: the differences are `[0,1)` and `[2, 2³²−1)`.  The
+zero-width, column-dependent `odd_column` token sits at offset 1 with look-ahead 1.  The gate of
+the pinned tree (`lineDiffOf false …`) ACCEPTS it — its span `[1,2)` meets no difference — although
+the scanner would now see column 0 and return `even_column` (the real runtime does exactly this:
+`harness/src/bin/c01_repro.rs`).  With the repair `fixes/C01-column-token-range-change.diff`
+(`lineDiffOf true …`) the gate refuses it.  A column-dependent scanner is not `LexLocal`, so the
+witness lies outside the hypotheses of `relex_*` / `incr_eq_scratch_tokens`. -/
+example :
+    let t : Tree := .mk { (default : NodeData) with symbol := 3, lookahead := 1, dependsOnColumn := true } []
+    let all := [(0, 1), (2, 4294967295)]
+    reuseGate toyLang all t 1 1 2 true (lineDiffOf false all t 1 1) = .reuse ∧
+    reuseGate toyLang all t 1 1 2 true (lineDiffOf true all t 1 1) = .rangeDiff := by decide
 
 end TsVerif.C01
